@@ -16,7 +16,7 @@ pub fn props() -> Vec<Prop> {
             id: "C14",
             run: c14,
             tools: None,
-            rule: "every string over {/,.,a,b} up to length 10 (quick) / 14 (thorough) is enumerated and sys::clean + PathExt::clean compared with a byte-level port of Go's path.Clean, plus idempotence/absoluteness/non-empty checks; seeded random strings over a wide alphabet (multi-byte, spaces, backslash) on top. distinct_nontrivial = distinct (set of clean rules the input triggers, output component count, output kind) classes among inputs that clean() changed, counted with a hash set.",
+            rule: "every string over {/,.,a,b} up to length 10 (quick) / 14 (thorough) is enumerated and sys::clean + PathExt::clean compared with a byte-level port of Go's path.Clean, plus idempotence/absoluteness/non-empty checks; a second exhaustive pass over whole components {/, .., ., ~, a, $v, b.c} up to 6 (quick) / 8 (thorough) of them - names that mean something to other layers are names like any other here; seeded random strings over a wide alphabet (multi-byte, spaces, backslash, ~, $, :) on top. distinct_nontrivial = distinct (set of clean rules the input triggers, output component count, output kind) classes among inputs that clean() changed, counted with a hash set.",
             assumptions: &["reference = port of the published Go algorithm, written without std::path", "inputs are UTF-8"],
             shards_quick: 8,
             shards_thorough: 16,
@@ -178,8 +178,17 @@ fn c14(ctx: &Ctx, rep: &mut Report) {
         }
     });
     rep.count("exhaustive_max_len", max as u64);
+    // a second exhaustive pass over whole components, among them names that mean something to OTHER layers (the home
+    // shortcut, a variable reference, a name with an extension): to clean() they are names like any other
+    let cmax = if ctx.thorough { 8 } else { 6 };
+    for_all_strings(&["/", "..", ".", "~", "a", "$v", "b.c"], cmax, |i, s| {
+        if ctx.mine(i) {
+            c14_one(s, rep);
+            rep.count("component_level_inputs", 1);
+        }
+    });
     // random over a wide alphabet
-    let toks = ["/", "/", ".", "..", "a", "b", "é", "€", "😀", " ", "\\", "b.c", "...", ".a", "a.", "//", "/./", "/../"];
+    let toks = ["/", "/", ".", "..", "a", "b", "é", "€", "😀", " ", "\\", "b.c", "...", ".a", "a.", "//", "/./", "/../", "~", "$", ":", "~/..", "file:"];
     let mut rng = ctx.rng("c14-random");
     let n = if ctx.thorough { 8_000_000 } else { 200_000 } / ctx.shards;
     let mut s = String::new();
